@@ -218,3 +218,5 @@ def run(chk, F):
     chk.run_rule("C10.codec", "Tombstone::write and ::read agree on field order and width", 2, codec, F)
     chk.run_rule("C10.append", "append writes at the tail slot, advances it, flushes on page change and before returning, propagating errors", 6, append, F)
     chk.run_rule("C10.locate", "a log page resolves to the partition that holds it: current partition iff page < its page count, else subtract and advance", 3, locate, F)
+    from rules import mustcall
+    mustcall.run_for(chk, F, "C10")
